@@ -182,7 +182,7 @@ pub fn run(args: &Args) -> i32 {
     for (n, s) in built {
         match s {
             Ok(s) => subjects.push(s),
-            Err(m) if m.starts_with("identity: ") => run.fail("subject", format!("{n}:identity-as-created"), m, json!({"shape": n})),
+            Err(m) if m.starts_with("identity: ") => run.fail("subject", format!("{n}:subject-identity"), m, json!({"shape": n})),
             Err(m) => mc_core::machinery_error(&format!("C13: cannot build subject {n}: {m}")),
         }
         run.eval(format!("subject:{n}").as_bytes());
